@@ -5,6 +5,10 @@
 
    Token-level model (Model/XmlTree.v, Model/Parser.v).  [reg] is the extension registry
    (any; the checks run with Generated.registry).  The second argument [true] of
+   [tok] is the model's parameter "DecodeElement of this registered / feature child into its
+   Go struct succeeds" (every typed field converts); the instance compared with the code is
+   Parser.go_typed_ok (MUC history conversions; result sets of every iq payload, of message
+   delegation and of the bind / session stream features).  The second argument [true] of
    next_packet / run_packets selects the repaired tree (unknown children of message,
    presence and forwarded are skipped with d.Skip()); [false] is the unchanged tree.
 
@@ -22,55 +26,72 @@ Local Open Scope nat_scope.
    switch nest of NextPacket dispatches, with white space / comments / processing
    instructions between them.  [top_ok] leaves the CHILDREN ARBITRARY TREES (unknown
    namespaces, any depth, elements named message / presence / iq / body / error / failed at
-   any depth) and demands only: (a) a child that the registry maps to a Go type is
-   well-typed for that type ([ext_ok]: forced by the proof, confirmed on the code - D18;
-   modelled: MUC history conversions);
-   (b) the element's own uint attribute (h of a / resumed / resume, max of enabled) converts.
-   Nothing is asked of <failed/> (any children, any h) nor of the children of <command/>.
+   any depth) and EXCLUDES EXACTLY:
+   (a) a stanza child that the registry maps to a Go type, or a child of <stream:features/>
+       other than <starttls/>, on which [tok] says the typed fields do not convert
+       (known findings illtyped-extension, illtyped-rsm; witnesses C02_illtyped_*_refuted);
+   (b) a presence whose own-namespace <priority/> has character data that does not convert
+       to int8 (known finding illtyped-priority; C02_illtyped_priority_refuted);
+   (c) an <a/>, <resumed/>, <resume/> (h) or <enabled/> (max) whose unqualified uint
+       attribute does not convert (known finding illtyped-sm-attr).
+   On each of these the code returns an error instead of the packet (the property's text makes
+   no such exception: they are recorded findings, not permissions).  Nothing is asked of
+   <failed/>, of SASL / handshake / stream-error elements (their structs have no typed field),
+   nor of unregistered children.
    Then successive NextPacket calls return exactly the packets of the elements, in order,
    then the close packet, then "connection closed". *)
-Theorem C02_framing : forall reg (items : list node),
-  forallb (top_ok reg) items = true ->
-  run_packets reg true (flatten_all items ++ [TEnd stream_name])
+Theorem C02_framing : forall reg tok (items : list node),
+  forallb (top_ok reg tok) items = true ->
+  run_packets reg true tok (flatten_all items ++ [TEnd stream_name])
   = pkts_of items ++ [PClose; Err EEof].
 Proof. exact framing_closed. Qed.
 
 (* the same when the input just ends *)
-Theorem C02_framing_eof : forall reg (items : list node),
-  forallb (top_ok reg) items = true ->
-  run_packets reg true (flatten_all items) = pkts_of items ++ [Err EEof].
+Theorem C02_framing_eof : forall reg tok (items : list node),
+  forallb (top_ok reg tok) items = true ->
+  run_packets reg true tok (flatten_all items) = pkts_of items ++ [Err EEof].
 Proof. exact framing_eof. Qed.
 
 (* one element: the packet and the cursor exactly after its end tag, whatever follows *)
-Theorem C02_one_element : forall reg n a cs rest tk,
-  classify n = inl tk -> top_ok reg (NElem n a cs) = true ->
-  next_packet reg true (flatten (NElem n a cs) ++ rest) = (pkt_of_top tk a, rest).
+Theorem C02_one_element : forall reg tok n a cs rest tk,
+  classify n = inl tk -> top_ok reg tok (NElem n a cs) = true ->
+  next_packet reg true tok (flatten (NElem n a cs) ++ rest) = (pkt_of_top tk a, rest).
 Proof.
-  intros reg n a cs rest tk Hc Hok. cbn [top_ok] in Hok. rewrite Hc in Hok.
+  intros reg tok n a cs rest tk Hc Hok. cbn [top_ok] in Hok. rewrite Hc in Hok.
   apply andb_true_iff in Hok as [H1 H2]. now apply next_packet_elem.
 Qed.
 
 (* UNKNOWN IS ERROR: an element whose (namespace, local) is not dispatchable yields an
    error, never a packet (both variants of the tree, any content), and ends the run. *)
-Theorem C02_unknown_is_error : forall reg rp n a cs rest,
+Theorem C02_unknown_is_error : forall reg tok rp n a cs rest,
   dispatchable n = false ->
-  exists e, fst (next_packet reg rp (flatten (NElem n a cs) ++ rest)) = Err e
+  exists e, fst (next_packet reg rp tok (flatten (NElem n a cs) ++ rest)) = Err e
             /\ (e = EUnexpected \/ e = EUnknownNs).
 Proof.
-  intros reg rp n a cs rest H. unfold dispatchable in H.
+  intros reg tok rp n a cs rest H. unfold dispatchable in H.
   destruct (classify n) as [tk|e] eqn:Hc; [discriminate|].
   exists e. split; [now apply next_packet_unknown | now apply (classify_err n)].
 Qed.
 
-Theorem C02_unknown_stops : forall reg items n a cs rest e,
-  forallb (top_ok reg) items = true -> classify n = inr e ->
-  run_packets reg true (flatten_all items ++ flatten (NElem n a cs) ++ rest)
+Theorem C02_unknown_stops : forall reg tok items n a cs rest e,
+  forallb (top_ok reg tok) items = true -> classify n = inr e ->
+  run_packets reg true tok (flatten_all items ++ flatten (NElem n a cs) ++ rest)
   = pkts_of items ++ [Err e].
 Proof. exact unknown_stops. Qed.
 
+(* TRUNCATION inside an element (token level): the input ends anywhere strictly inside a
+   dispatchable element - after its start tag, in the middle of its content, before its end
+   tag.  The elements before it yield exactly their packets; the cut element yields no packet
+   but an error, whatever it contains (no hypothesis on the cut element's content). *)
+Theorem C02_truncated : forall reg tok items n a cs pre suf,
+  forallb (top_ok reg tok) items = true -> dispatchable n = true ->
+  flatten (NElem n a cs) = pre ++ suf -> pre <> [] -> suf <> [] ->
+  run_packets reg true tok (flatten_all items ++ pre) = pkts_of items ++ [Err EDecode].
+Proof. exact truncated_stops. Qed.
+
 (* the stream's end tag yields the close packet *)
-Theorem C02_stream_close : forall reg rp rest,
-  next_packet reg rp (TEnd stream_name :: rest) = (PClose, rest).
+Theorem C02_stream_close : forall reg tok rp rest,
+  next_packet reg rp tok (TEnd stream_name :: rest) = (PClose, rest).
 Proof.
   intros. unfold next_packet. cbn [next_token]. now rewrite name_eqb_refl.
 Qed.
@@ -78,25 +99,25 @@ Qed.
 (* TOTAL / PROGRESS (both variants, ARBITRARY token lists): every non-error result
    consumed at least one token; a run is a list of non-error packets ended by exactly one
    error; no fuel of the model is ever exhausted. *)
-Theorem C02_progress : forall reg rp ts p r,
-  next_packet reg rp ts = (p, r) -> is_err p = false -> List.length r < List.length ts.
+Theorem C02_progress : forall reg tok rp ts p r,
+  next_packet reg rp tok ts = (p, r) -> is_err p = false -> List.length r < List.length ts.
 Proof. exact next_packet_progress. Qed.
 
-Theorem C02_run_shape : forall reg rp ts,
-  exists ps e, run_packets reg rp ts = ps ++ [Err e]
+Theorem C02_run_shape : forall reg tok rp ts,
+  exists ps e, run_packets reg rp tok ts = ps ++ [Err e]
                /\ forallb (fun p => negb (is_err p)) ps = true.
 Proof. intros. apply run_shape. unfold lt. apply le_n. Qed.
 
-Theorem C02_terminates : forall reg rp ts, ~ In (Err EFuel) (run_packets reg rp ts).
+Theorem C02_terminates : forall reg tok rp ts, ~ In (Err EFuel) (run_packets reg rp tok ts).
 Proof. exact run_packets_no_fuel. Qed.
 
-Theorem C02_loops_terminate : forall reg rp sns k self ts,
-  loop (S (List.length ts)) (child_of reg rp sns k) self ts <> LFuel /\
+Theorem C02_loops_terminate : forall reg tok rp sns k self ts,
+  loop (S (List.length ts)) (child_of reg rp tok sns k) self ts <> LFuel /\
   loop (S (List.length ts)) skip_h self ts <> LFuel /\
   loop (S (List.length ts)) (fwd_child rp) self ts <> LFuel /\
   loop (S (List.length ts)) (deleg_child rp) self ts <> LFuel /\
   loop (S (List.length ts)) failed_child self ts <> LFuel /\
-  loop (S (List.length ts)) features_child self ts <> LFuel.
+  loop (S (List.length ts)) (features_child tok) self ts <> LFuel.
 Proof.
   intros. split; [apply stanza_loop_no_fuel | apply inner_loops_no_fuel].
 Qed.
@@ -109,15 +130,24 @@ Qed.
      C02_attr_only_accepted);
    - the value is that of the last accepted attribute of that local name (C02_attr_value),
      in particular of the unqualified one when it is the only such; absent => empty. *)
-Theorem C02_attrs_from_own_tag : forall n a cs cs' (q : attr) a1 a2,
-  pkts_of [NElem n a cs] = pkts_of [NElem n a cs'] /\
+Theorem C02_attrs_from_own_tag : forall reg tok n (a : list attr) cs cs' rest (q : attr) a1 a2,
+  (* the packet returned for an element does not depend on the element's content ... *)
+  (top_ok reg tok (NElem n a cs) = true -> top_ok reg tok (NElem n a cs') = true ->
+   fst (next_packet reg true tok (flatten (NElem n a cs) ++ rest))
+   = fst (next_packet reg true tok (flatten (NElem n a cs') ++ rest))) /\
+  (* ... nor on a qualified attribute of its start tag *)
   (attr_accepted q = false ->
    pkts_of [NElem n (a1 ++ q :: a2) cs] = pkts_of [NElem n (a1 ++ a2) cs]).
 Proof.
-  intros. split; [reflexivity|]. intros Hq. unfold pkts_of. cbn [flat_map].
-  destruct (classify n) as [[k| | |p u]|e]; try reflexivity.
-  cbn [pkt_of_top]. unfold stanza_pkt, stanza_attrs.
-  now rewrite !(get_attr_qualified _ a1 q a2 Hq).
+  intros. split.
+  - intros H1 H2. pose proof H1 as H1'. cbn [top_ok] in H1'.
+    destruct (classify n) as [tk|e] eqn:Hc; [|discriminate].
+    now rewrite (C02_one_element reg tok n a cs rest tk Hc H1),
+                (C02_one_element reg tok n a cs' rest tk Hc H2).
+  - intros Hq. unfold pkts_of. cbn [flat_map].
+    destruct (classify n) as [[k| | |p u]|e]; try reflexivity.
+    cbn [pkt_of_top]. unfold stanza_pkt, stanza_attrs.
+    now rewrite !(get_attr_qualified _ a1 q a2 Hq).
 Qed.
 
 Theorem C02_attr_qualified_ignored : forall l (a1 : list attr) x (a2 : list attr),
@@ -173,24 +203,24 @@ Qed.
    Go's tokenizer its own serialisation, incl. prefixes, self-closing tags, single quotes,
    comments, CDATA - syntax outside C01's printed language), that xml.Marshal writes what
    XmlPrint.print writes (C01's harness, byte for byte), and the UTF-8 encoding [utf8]. *)
-Theorem C02_framing_bytes : forall reg (es : list xtree),
+Theorem C02_framing_bytes : forall reg tok (es : list xtree),
   forallb wf_doc es = true ->
-  forallb (top_ok reg) (bridge_trees es) = true ->
-  option_map (run_packets reg true) (stream_tokens (print_stream es))
+  forallb (top_ok reg tok) (bridge_trees es) = true ->
+  option_map (run_packets reg true tok) (stream_tokens (print_stream es))
   = Some (pkts_of (bridge_trees es) ++ [PClose; Err EEof]).
 Proof.
-  intros reg es Hwf Hok. rewrite (stream_tokens_print es Hwf). cbn [option_map].
+  intros reg tok es Hwf Hok. rewrite (stream_tokens_print es Hwf). cbn [option_map].
   f_equal. now apply framing_closed.
 Qed.
 
 (* the same when the bytes just end after the last element *)
-Theorem C02_framing_bytes_eof : forall reg (es : list xtree),
+Theorem C02_framing_bytes_eof : forall reg tok (es : list xtree),
   forallb wf_doc es = true ->
-  forallb (top_ok reg) (bridge_trees es) = true ->
-  option_map (run_packets reg true) (open_stream_tokens (print_open_stream es))
+  forallb (top_ok reg tok) (bridge_trees es) = true ->
+  option_map (run_packets reg true tok) (open_stream_tokens (print_open_stream es))
   = Some (pkts_of (bridge_trees es) ++ [Err EEof]).
 Proof.
-  intros reg es Hwf Hok. rewrite (open_stream_tokens_print es Hwf). cbn [option_map].
+  intros reg tok es Hwf Hok. rewrite (open_stream_tokens_print es Hwf). cbn [option_map].
   f_equal. now apply framing_eof.
 Qed.
 
@@ -212,8 +242,8 @@ Definition d3_witness : list node :=
 
 (* the unchanged tree violates framing on an input that meets every hypothesis *)
 Theorem C02_unrepaired_refuted :
-  forallb (top_ok registry) d3_witness = true /\
-  run_packets registry false (flatten_all d3_witness ++ [TEnd stream_name]) = [Err EDecode] /\
+  forallb (top_ok registry go_typed_ok) d3_witness = true /\
+  run_packets registry false go_typed_ok (flatten_all d3_witness ++ [TEnd stream_name]) = [Err EDecode] /\
   pkts_of d3_witness ++ [PClose; Err EEof] <> [Err EDecode].
 Proof. split; [|split]; [vm_compute; reflexivity | vm_compute; reflexivity | discriminate]. Qed.
 
@@ -225,9 +255,37 @@ Definition d18_witness : list node :=
    NElem (cl "presence") [] []].
 
 Theorem C02_illtyped_extension_refuted :
-  forallb (top_ok registry) d18_witness = false /\
-  run_packets registry true (flatten_all d18_witness ++ [TEnd stream_name]) = [Err EDecode].
+  forallb (top_ok registry go_typed_ok) d18_witness = false /\
+  run_packets registry true go_typed_ok (flatten_all d18_witness ++ [TEnd stream_name]) = [Err EDecode].
 Proof. split; vm_compute; reflexivity. Qed.
+
+(* <presence><priority>high</priority></presence>: exclusion (b) is needed, and is what the
+   code does (strconv.ParseInt error from DecodeElement(&pres.Priority)) *)
+Definition prio_witness : list node :=
+  [NElem (cl "presence") [] [NElem (cl "priority") [] [NText (bytes_of "high")]];
+   NElem (cl "presence") [] []].
+Theorem C02_illtyped_priority_refuted :
+  forallb (top_ok registry go_typed_ok) prio_witness = false /\
+  run_packets registry true go_typed_ok (flatten_all prio_witness ++ [TEnd stream_name]) = [Err EDecode].
+Proof. split; vm_compute; reflexivity. Qed.
+
+(* a result set whose <max/> does not convert, in a registered iq payload and below the
+   bind stream feature: exclusion (a) *)
+Definition rsm_bad : node :=
+  NElem rsm_set_name [] [NElem (ns_rsm, bytes_of "max") [] [NText (bytes_of "x")]].
+Definition rsm_witness1 : list node :=
+  [NElem (cl "iq") [at_ "id" "1"]
+     [NElem (bytes_of "http://jabber.org/protocol/disco#items", bytes_of "query") [] [rsm_bad]];
+   NElem (cl "presence") [] []].
+Definition rsm_witness2 : list node :=
+  [NElem (ns_stream, bytes_of "features") [] [NElem bind_name [] [rsm_bad]];
+   NElem (cl "presence") [] []].
+Theorem C02_illtyped_rsm_refuted :
+  forallb (top_ok registry go_typed_ok) rsm_witness1 = false /\
+  run_packets registry true go_typed_ok (flatten_all rsm_witness1 ++ [TEnd stream_name]) = [Err EDecode] /\
+  forallb (top_ok registry go_typed_ok) rsm_witness2 = false /\
+  run_packets registry true go_typed_ok (flatten_all rsm_witness2 ++ [TEnd stream_name]) = [Err EDecode].
+Proof. repeat split; vm_compute; reflexivity. Qed.
 
 (* the two former name-check findings (repaired by beca765 and 92db6e3) are now inside the
    theorem's domain: no hypothesis is needed for them
@@ -241,16 +299,16 @@ Definition foreign_witness2 : list node :=
    NElem (cl "presence") [] []].
 
 Theorem C02_foreign_names_ok :
-  forallb (top_ok registry) foreign_witness1 = true /\
-  forallb (top_ok registry) foreign_witness2 = true /\
+  forallb (top_ok registry go_typed_ok) foreign_witness1 = true /\
+  forallb (top_ok registry go_typed_ok) foreign_witness2 = true /\
   List.length (pkts_of foreign_witness1) = 2 /\ List.length (pkts_of foreign_witness2) = 2.
 Proof. repeat split; vm_compute; reflexivity. Qed.
 
 (* <failed/> with ARBITRARY children and attributes always yields its packet *)
-Theorem C02_failed_any_content : forall reg a cs rest,
-  next_packet reg true (flatten (NElem (ns_sm, s_failed) a cs) ++ rest) = (PSmFailed, rest).
+Theorem C02_failed_any_content : forall reg tok a cs rest,
+  next_packet reg true tok (flatten (NElem (ns_sm, s_failed) a cs) ++ rest) = (PSmFailed, rest).
 Proof.
-  intros. apply (C02_one_element reg _ a cs rest TKFailed); [vm_compute; reflexivity|].
+  intros. apply (C02_one_element reg tok _ a cs rest TKFailed); [vm_compute; reflexivity|].
   cbn [top_ok]. replace (classify (ns_sm, s_failed)) with (@inl top_kind errk TKFailed)
     by (vm_compute; reflexivity).
   cbn [own_attrs_ok andb]. apply forallb_forall. intros [n' a' cs'|t|] _; reflexivity.
@@ -273,7 +331,7 @@ Definition hunt_witness : list node :=
             NElem history_name [at_ "maxstanzas" "20"; qat "urn:example:ext" "seconds" "all"] [] ] ] ].
 
 Theorem C02_foreign_lookalikes_ok :
-  forallb (top_ok registry) hunt_witness = true /\ List.length (pkts_of hunt_witness) = 3.
+  forallb (top_ok registry go_typed_ok) hunt_witness = true /\ List.length (pkts_of hunt_witness) = 3.
 Proof. split; vm_compute; reflexivity. Qed.
 
 (* non-vacuity: a stream whose elements contain unknown children, a nested same-named
@@ -302,12 +360,12 @@ Definition example_items : list node :=
         NElem (ns_stanzas, bytes_of "item-not-found") [] [NElem (ns_sm, bytes_of "failed") [] []] ] ].
 
 Example C02_example :
-  forallb (top_ok registry) example_items = true /\
+  forallb (top_ok registry go_typed_ok) example_items = true /\
   List.length (pkts_of example_items) = 5 /\
   hd PClose (pkts_of example_items)
   = PMessage {| a_type := bytes_of "chat"; a_id := bytes_of "m1"; a_from := [];
                 a_to := bytes_of "a@b"; a_lang := bytes_of "en" |} /\
-  run_packets registry true (flatten_all example_items ++ [TEnd stream_name])
+  run_packets registry true go_typed_ok (flatten_all example_items ++ [TEnd stream_name])
   = pkts_of example_items ++ [PClose; Err EEof].
 Proof. split; [|split; [|split]]; vm_compute; reflexivity. Qed.
 
@@ -330,8 +388,8 @@ Example C02_example_bytes :
     ++ [233%N] ++
     cp "llo &lt;&amp;&gt; </body><x xmlns=""u""><message xmlns=""jabber:client"" id=""inner""></message><body xmlns=""jabber:client"">fake</body></x></message><presence xmlns=""jabber:client""></presence><r xmlns=""urn:xmpp:sm:3""></r></stream:stream>"
   /\ forallb wf_doc example_xtrees = true
-  /\ forallb (top_ok registry) (bridge_trees example_xtrees) = true
-  /\ option_map (run_packets registry true) (stream_tokens (print_stream example_xtrees))
+  /\ forallb (top_ok registry go_typed_ok) (bridge_trees example_xtrees) = true
+  /\ option_map (run_packets registry true go_typed_ok) (stream_tokens (print_stream example_xtrees))
      = Some [ PMessage {| a_type := []; a_id := bytes_of "m<1>"; a_from := [];
                           a_to := bytes_of "a@b"; a_lang := [] |};
               PPresence {| a_type := []; a_id := []; a_from := []; a_to := []; a_lang := [] |};
@@ -359,6 +417,9 @@ Print Assumptions C02_attr_value.
 Print Assumptions C02_attr_absent.
 Print Assumptions C02_unrepaired_refuted.
 Print Assumptions C02_illtyped_extension_refuted.
+Print Assumptions C02_illtyped_priority_refuted.
+Print Assumptions C02_illtyped_rsm_refuted.
+Print Assumptions C02_truncated.
 Print Assumptions C02_foreign_names_ok.
 Print Assumptions C02_foreign_lookalikes_ok.
 Print Assumptions C02_failed_any_content.
